@@ -316,6 +316,8 @@ def inherited_templates(R):
 def run(R):
     R.build()
     R.prove('Props/C06.v')
+    from ..flagtie import regen_and_tie_flags
+    regen_and_tie_flags(R)       # the flag methods of the current source, translated, equal Model.always / Model.partial
     python_arguments(R)
     nested_python_arguments(R)
     literal_values(R)
